@@ -201,7 +201,10 @@ class UModel:
             t = self.type_with_dims(self.dims_of_bmap(bmap))
             if t is None:
                 return ("undefined",)
-            return ("type", t.idx)
+            if t.has_ref:
+                return ("type", t.idx)
+            # a type built from components without reference unit has no
+            # reference unit itself: only its declared units can carry a result
         cands = [u.uid for u in self.units if u.bmap == bmap]
         if not cands:
             return ("undefined",)
@@ -606,3 +609,141 @@ def run_conv_case(case, ctx, check_convert):
             ctx.viol(f"u_cross/{type(exc).__name__}", f"{q!r}.convert({b.units[c]}) raised {type(exc).__name__}")
         else:
             ctx.viol("u_cross/returned", f"{q!r}.convert({b.units[c]}) returned {r!r}")
+
+
+# ---------------------------------------------------------------------------
+# C02: products / quotients / powers inside generated universes
+
+def _good_type_pairs(m: UModel):
+    out = []
+    for t1 in m.types:
+        if not t1.units:
+            continue
+        for t2 in m.types:
+            if not t2.units:
+                continue
+            for op, sg in (("*", 1), ("/", -1)):
+                d = bm_mul(t1.dims, t2.dims, sg)
+                if not d or m.type_with_dims(d) is not None:
+                    out.append((t1.idx, op, t2.idx))
+    return out
+
+
+@st.composite
+def gen_ops_case(draw, max_base=3, max_steps=12):
+    g = UGen(draw, allow_noref=True, allow_quantum=True)
+    g.grow(draw(st.integers(1, max_base)), draw(st.integers(3, max_steps)))
+    m = g.m
+    have = [t for t in m.types if t.units]
+    good = _good_type_pairs(m)
+    kinds = ("int", "dec", "decp", "frac")
+    ops = []
+    for _ in range(draw(st.integers(3, 8))):
+        sel = draw(st.integers(0, 9))
+        if sel <= 1:
+            t = draw(st.sampled_from(have))
+            ops.append({"op": "**", "shape": draw(st.sampled_from(["u", "q"])),
+                        "u": draw(st.sampled_from(t.units)), "n": draw(st.integers(-3, 3)),
+                        "a": draw(gen.encode(gen.fractions(allow_zero=False), kinds))})
+            continue
+        if sel <= 6 and good:
+            t1, op, t2 = draw(st.sampled_from(good))
+            u = draw(st.sampled_from(m.types[t1].units))
+            v = draw(st.sampled_from(m.types[t2].units))
+        else:
+            u = draw(st.sampled_from(draw(st.sampled_from(have)).units))
+            v = draw(st.sampled_from(draw(st.sampled_from(have)).units))
+            op = draw(st.sampled_from(["*", "/"]))
+        ops.append({"op": op, "shape": draw(st.sampled_from(["uu", "qu", "uq", "qq", "qq"])), "u": u, "v": v,
+                    "a": draw(gen.encode(gen.fractions(allow_zero=False), kinds)),
+                    "b": draw(gen.encode(gen.fractions(allow_zero=False), kinds))})
+    return {"k": "u_ops", "uni": g.spec(), "ops": ops}
+
+
+def expectation(m: UModel, factor, bmap):
+    r = m.result(factor, bmap)
+    if r[0] == "number":
+        return {"kind": "number", "value": factor}
+    if r[0] == "type":
+        return {"kind": "typed", "t": r[1], "ref": factor}
+    if r[0] == "units":
+        return {"kind": "typed", "t": m.units[r[1][0]].t, "ref": factor, "cands": r[1]}
+    if r[0] == "undefined":
+        return {"kind": "undefined"}
+    return None
+
+
+def run_ops_case(case, ctx, judge):
+    from quantity import Quantity
+    spec = case["uni"]
+    m = model_of(spec)
+    b = build(spec)
+    ctx.label("universes")
+    if b.errors:
+        di, exc = b.errors[0]
+        d = spec["decls"][di]
+        ctx.viol(f"u_decl/{d['d']}/{d.get('how', d.get('kind'))}/{type(exc).__name__}",
+                 f"valid declaration #{di} {d} raised {type(exc).__name__}: {exc}")
+        return
+    sym2uid = {s: i for i, s in enumerate(b.syms)}
+
+    def scale_of(ru):
+        uid = sym2uid.get(ru.symbol)
+        return None if uid is None else m.units[uid].factor
+
+    def quantum_of(ru):
+        uid = sym2uid.get(ru.symbol)
+        return None if uid is None else m.unit_quantum(uid)
+
+    def cls_of(ti):
+        return b.types[ti]
+
+    for o in case["ops"]:
+        op, shape = o["op"], o["shape"]
+        mu = m.units[o["u"]]
+        U = b.units[o["u"]]
+        qa = Quantity(mknum(o["a"]), U)
+        fa = mu.factor * (F(qa.amount) if shape[0] == "q" else 1)
+        left = qa if shape[0] == "q" else U
+        if op == "**":
+            n = o["n"]
+            if fa == 0 and n < 0:
+                continue
+            if n == 0:
+                exp = {"kind": "number", "value": Fraction(1)}
+            else:
+                exp = expectation(m, fa ** n, bm_pow(mu.bmap, n))
+            if exp is None:
+                ctx.label("ambiguous")
+                continue
+            ctx.tick()
+            ctx.nontrivial()
+            ctx.label(f"outcome/{exp['kind']}")
+            judge(ctx, f"u**/{shape}", f"{left!r} ** {n} [{mu.how}]", lambda l=left, n=n: l ** n, exp,
+                  scale_of, quantum_of, cls_of)
+            continue
+        mv = m.units[o["v"]]
+        V = b.units[o["v"]]
+        qb = Quantity(mknum(o["b"]), V)
+        fb = mv.factor * (F(qb.amount) if shape[1] == "q" else 1)
+        right = qb if shape[1] == "q" else V
+        if op == "/" and fb == 0:
+            continue
+        if op == "/" and mu.t == mv.t and not m.types[mu.t].has_ref and o["u"] != o["v"]:
+            ctx.label("excluded/noref_div")
+            continue
+        if op == "*":
+            exp = expectation(m, fa * fb, bm_mul(mu.bmap, mv.bmap, 1))
+        else:
+            exp = expectation(m, fa / fb, bm_mul(mu.bmap, mv.bmap, -1))
+        if exp is None:
+            ctx.label("ambiguous")
+            continue
+        ctx.tick()
+        ctx.label(f"outcome/{exp['kind']}")
+        ctx.label(f"how/{mu.how}.{mv.how}")
+        if mu.factor != 1 or mv.factor != 1 or exp["kind"] != "typed":
+            ctx.nontrivial()
+        fn = (lambda l=left, r=right: l * r) if op == "*" else (lambda l=left, r=right: l / r)
+        judge(ctx, f"u{op}/{shape}", f"{left!r} {op} {right!r} [{mu.how},{mv.how}]", fn, exp,
+              scale_of, quantum_of, cls_of, tuple_ok=(shape == "uu"))
